@@ -262,3 +262,7 @@ Example hex_samples :
   = (Good [], Good [0; 255; 122], Good [10], Bad m_hex, bs "-", bs "00ff7a100").
 Proof. vm_compute. reflexivity. Qed.
 End Samples.
+
+(* sbcov: the sparse binned counter alone over a region list with more than 2^32 bins (case kind added after the port) *)
+Example rc_sbcov : run_case (SL [SA [115;98;99;111;118]; SA [49]; SL [SA [114;101;103;115]; SL [SA [54;51;54;56;55;50;51;49]; SA [48]; SA [52;50;57;52;57;54;55;52;48;48]]; SL [SA [54;51;54;56;55;50;51;50]; SA [49;48;48;48]; SA [50;48;48;48]]]; SL [SA [111;112;115]; SL [SA [105;110;115]; SA [54;51;54;56;55;50;51;50]; SA [49;53;48;48]; SA [49;53;48;51]; SA [50]]; SL [SA [103;101;116;109;97;112]]; SL [SA [103;101;116;114;101;103;105;111;110]; SA [52;50;57;52;57;54;56;57;48;48]]; SL [SA [103;101;116;99;104;114;111;109]; SA [52;50;57;52;57;54;55;57;48;48]]; SL [SA [103;101;116;114;101;103;105;111;110]; SA [52;50;57;52;57;54;55;57;48;49]]; SL [SA [105;110;115]; SA [54;51;54;56;55;50;51;49]; SA [52;50;57;52;57;54;55;51;57;56]; SA [52;50;57;52;57;54;55;53;48;48]; SA [49]]; SL [SA [103;101;116;109;97;112]]; SL [SA [114;101;115;101;116]]; SL [SA [103;101;116;109;97;112]]]]) = SL [SA [114]; SL [SA [115;109;97;112]; SA [50]; SA [52;50;57;52;57;54;56;52;48;48]; SL [SL [SA [52;50;57;52;57;54;55;57;48;48]; SA [50]]; SL [SA [52;50;57;52;57;54;55;57;48;49]; SA [50]]; SL [SA [52;50;57;52;57;54;55;57;48;50]; SA [50]]]]; SA [110;111;110;101]; SA [54;51;54;56;55;50;51;50]; SL [SA [54;51;54;56;55;50;51;50]; SA [49;53;48;49]; SA [49;53;48;50]]; SL [SA [115;109;97;112]; SA [51]; SA [52;50;57;52;57;54;56;52;48;48]; SL [SL [SA [52;50;57;52;57;54;55;57;48;48]; SA [50]]; SL [SA [52;50;57;52;57;54;55;57;48;49]; SA [50]]; SL [SA [52;50;57;52;57;54;55;57;48;50]; SA [50]]; SL [SA [52;50;57;52;57;54;55;51;57;56]; SA [49]]; SL [SA [52;50;57;52;57;54;55;51;57;57]; SA [49]]]]; SL [SA [115;109;97;112]; SA [48]; SA [52;50;57;52;57;54;56;52;48;48]; SL []]].
+Proof. vm_compute. reflexivity. Qed.
